@@ -611,9 +611,8 @@ func stackExec(t int, c stackCase) []obj {
 			r.log(obj{"e": "signcheck", "subsets": total, "bad": bad, "panic": perr})
 		}
 	}
-	r.mu.Lock()
-	defer r.mu.Unlock()
-	// goroutines of calls that have returned may still be logging: the record of the run is closed under the lock
+	// goroutines of calls that have returned may still be logging: the record of the run is closed under the lock, and what is
+	// returned does not share its backing array with the live record
 	r.mu.Lock()
 	defer r.mu.Unlock()
 	r.closed = true
